@@ -28,6 +28,68 @@ def count_fn(name):
     return ghost, defs
 
 
+def int_fn(name, arity=1, real=False):
+    """ghost integer (or real) function of integer arguments (definitions are given as contract defs)"""
+    from .values import VSpecFn, VInt, VReal
+    from .ops import to_int_z
+    f = z3.Function(name, *([I] * arity), z3.RealSort() if real else I)
+    wrap = VReal if real else VInt
+    return lambda it, fr: VSpecFn(lambda interp, args: wrap(f(*[to_int_z(a) for a in args])), name)
+
+
+def running_total(name, real=False):
+    """name(0) = 0, name(g + 1) = name(g) + term(g) for 0 <= g < n: a running total without sign assumptions.
+    returns (ghost builder, defs(term_of_g, n))"""
+    ghost = int_fn(name, 1, real=real)
+
+    def defs(term, n):
+        return [(f"{name}.def.zero", f"{name}(0) == 0"),
+                (f"{name}.def.step", f"forall(g, 0, {n}, {name}(g + 1) == {name}(g) + ({term('g')}))")]
+    return ghost, defs
+
+
+def count_fn2(name):
+    """family of prefix counts indexed by an outer position g: name(g, k) = #{m < k : pred(g, m)}.
+    returns (ghost builder, defs(pred_of_g_k, outer_n, inner_n_of_g)); for each fixed g the lemmas of add_count_lemmas apply"""
+    ghost = int_fn(name, 2)
+
+    def defs(pred, outer, inner):
+        n = inner("g")
+        return [
+            (f"{name}.def.zero", f"forall(g, 0, {outer}, {name}(g, 0) == 0)"),
+            (f"{name}.def.step", f"forall(g, 0, {outer}, forall(k, 0, {n}, {name}(g, k + 1) == {name}(g, k) + (1 if ({pred('g', 'k')}) else 0)))"),
+            (f"{name}.lemma.bounded", f"forall(g, 0, {outer}, forall(k, 0, {n} + 1, 0 <= {name}(g, k) and {name}(g, k) <= k))"),
+            (f"{name}.lemma.monotone", f"forall(g, 0, {outer}, forall(j, 0, {n} + 1, forall(k, 0, {n} + 1, implies(j <= k, {name}(g, j) <= {name}(g, k)))))"),
+        ]
+    return ghost, defs
+
+
+def sum_fn(name):
+    """running total over an outer index: name(0) = 0, name(g + 1) = name(g) + term(g), terms non-negative.
+    returns (ghost builder, defs(term_of_g, n)); non-negativity / monotonicity are the lemmas of add_sum_lemmas"""
+    ghost = int_fn(name, 1)
+
+    def defs(term, n):
+        return [
+            (f"{name}.def.zero", f"{name}(0) == 0"),
+            (f"{name}.def.step", f"forall(g, 0, {n}, {name}(g + 1) == {name}(g) + ({term('g')}))"),
+            (f"{name}.lemma.non_negative", f"forall(g, 0, {n} + 1, {name}(g) >= 0)"),
+            (f"{name}.lemma.monotone", f"forall(g, 0, {n} + 1, forall(h, 0, {n} + 1, implies(g <= h, {name}(g) <= {name}(h))))"),
+        ]
+    return ghost, defs
+
+
+def add_sum_lemmas(P):
+    """a running total of non-negative terms is non-negative and non-decreasing (induction, two VCs each)"""
+    s_, t_ = z3.Function("s", I, I), z3.Function("t", I, I)
+    k, j = z3.Ints("k j")
+    defs = [s_(0) == 0, z3.ForAll([k], z3.Implies(k >= 0, z3.And(s_(k + 1) == s_(k) + t_(k), t_(k) >= 0)))]
+    P.lemma("sum.non_negative.base", lambda z: (defs, s_(0) >= 0))
+    P.lemma("sum.non_negative.step", lambda z: (defs + [k >= 0, s_(k) >= 0], s_(k + 1) >= 0))
+    P.lemma("sum.monotone.base", lambda z: (defs + [j >= 0], s_(j) <= s_(j)))
+    P.lemma("sum.monotone.step", lambda z: (defs + [j >= 0, k >= j, s_(j) <= s_(k)], s_(j) <= s_(k + 1)))
+
+
 def pred_fn(name, arity=2):
     """ghost predicate over integer indices: keeps large definitions out of the quantifier bodies that use them.
     returns (ghost builder, defs(expansion(k, j), n, m))"""
